@@ -206,7 +206,10 @@ def run(chk):
         if ident.endswith("::Equation_AST_Node::eval_internal"):
             # the only argument that could be a temporary is the right operand; the left operand is rejected when it is a
             # temporary (is_return_value) and the result of an assignment refers to the left operand
-            lhs_tmp_rejected = any(x.get("k") == "call" and x.get("name") == "is_return_value" for x in walk(f["body"]))
+            eflow = FnFlow(f)
+            points = disp or [x for x in walk(f["body"]) if x.get("k") == "return" and x.get("e") is not None]
+            lhs_tmp_rejected = bool(points) and all(any((not t) and strip_casts(a).get("k") == "call" and strip_casts(a).get("name") == "is_return_value"
+                                                        for a, t in atomic_facts(eflow, d_)) for d_ in points)
             if lhs_tmp_rejected:
                 exempt = True
                 r4.note("%s: exempt - assignment rejects a temporary left operand and its result refers to the left operand" % ident)
